@@ -37,9 +37,13 @@ fn main() {
             });
             let mut prop = String::new();
             let mut case = String::new();
+            let mut tier = String::from("quick");
             for line in txt.lines() {
                 if line.starts_with("---") {
                     break;
+                }
+                if let Some(v) = line.strip_prefix("tier=") {
+                    tier = v.trim().to_string();
                 }
                 if let Some(v) = line.strip_prefix("property=") {
                     prop = v.trim().to_string();
@@ -52,6 +56,13 @@ fn main() {
                 eprintln!("unknown property '{}' in {}", prop, path);
                 std::process::exit(2)
             });
+            if case.starts_with("hang ") {
+                // a hang is recorded per work item, not per case: replaying it means running the
+                // tier again (the enumeration order is fixed), with the same watchdog
+                println!("hang record: re-running {} {} under the watchdog", prop, tier);
+                let st = std::process::Command::new(std::env::current_exe().expect("own path")).arg(&prop).arg(&tier).status().expect("spawn self");
+                std::process::exit(st.code().unwrap_or(2));
+            }
             match c.replay(&case) {
                 Ok(Some(v)) => {
                     println!("VIOLATION property={} replay={}", prop, path);
